@@ -14,6 +14,14 @@ BUILTIN_NAMES = {'len', 'range', 'abs', 'min', 'max', 'sum', 'float', 'int', 'bo
                  'callable', 'slice', 'bytes', 'open', 'super'}
 
 
+def ext_value(dotted):
+    if dotted in ('numpy.pi', 'math.pi', 'cmath.pi'):
+        return PI
+    if dotted in ('numpy.inf', 'math.inf'):
+        return Opaque('inf')
+    return ExtRef(dotted)
+
+
 # ----------------------------------------------------------------------------- strings
 def mk_str(parts):
     flat = []
@@ -409,6 +417,8 @@ _KNOWN_METHODS = {
 
 def call_bound(it, recv, name, args, kwargs):
     from .interp import Iter, _hashable
+    if isinstance(recv, _Mixin):
+        return _mixin_call(it, recv.o, name, args)
     if isinstance(recv, Rat):
         if name == 'conjugate':
             return recv.conj()
